@@ -5,6 +5,7 @@ import (
 	"fmt"
 	"sort"
 	"strings"
+	"unicode/utf16"
 
 	"github.com/pdfcpu/pdfcpu/pkg/api"
 	"github.com/pdfcpu/pdfcpu/pkg/pdfcpu"
@@ -249,6 +250,76 @@ func c13EndToEnd(r *core.R) {
 			}
 		}
 	})
+	c13Encrypted(r, base)
+}
+
+// c13Encrypted: the property-value channel through an ENCRYPTED document (stored, then encrypted with each
+// algorithm, then listed with the password): every text length from 1 to 24 UTF-16 code units (so that BOM +
+// text hits every alignment to the 16-byte cipher block) x a final character from a set whose last stored
+// byte ranges over padding-like values (U+0101, U+3002, U+010D, U+0410, U+200D, U+1F601 -> low surrogate DE01)
+// and ordinary ones.
+func c13Encrypted(r *core.R, base []byte) {
+	finals := []string{"z", "\u0101", "\u3002", "\u010d", "\u0410", "\u200d", "\U0001F601", "\u0110", "\u0210"}
+	var texts []string
+	for L := 1; L <= 24; L++ {
+		for _, f := range finals {
+			fu := 1
+			if []rune(f)[0] >= 0x10000 {
+				fu = 2
+			}
+			if L < fu {
+				continue
+			}
+			texts = append(texts, strings.Repeat("\u3042", L-fu)+f) // hiragana A forces UTF-16 storage
+		}
+	}
+	type alg struct {
+		name string
+		aes  bool
+		bits int
+	}
+	for _, a := range []alg{{"RC4-128", false, 128}, {"AES-128", true, 128}, {"AES-256", true, 256}} {
+		for from := 0; from < len(texts); from += 64 {
+			to := from + 64
+			if to > len(texts) {
+				to = len(texts)
+			}
+			batch := texts[from:to]
+			m := map[string]string{}
+			for i, t := range batch {
+				m[fmt.Sprintf("K%03d", i)] = t
+			}
+			r.Eval(int64(len(batch)))
+			r.Nontrivial(int64(len(batch)))
+			rep := map[string]any{"channel": "document property value, encrypted " + a.name, "from": from}
+			var d1, d2 bytes.Buffer
+			if err := api.AddProperties(bytes.NewReader(base), &d1, m, newConf()); err != nil {
+				r.Violation("e2e:store-failed:encrypted:"+a.name, fmt.Sprintf("AddProperties: %v", err), rep)
+				continue
+			}
+			c := newConf()
+			c.UserPW, c.OwnerPW, c.EncryptUsingAES, c.EncryptKeyLength = "u", "o", a.aes, a.bits
+			if err := api.Encrypt(bytes.NewReader(d1.Bytes()), &d2, c); err != nil {
+				r.Violation("e2e:store-failed:encrypted:"+a.name, fmt.Sprintf("Encrypt: %v", err), rep)
+				continue
+			}
+			c2 := newConf()
+			c2.UserPW = "u"
+			ps, err := api.Properties(bytes.NewReader(d2.Bytes()), c2)
+			if err != nil {
+				r.Violation("e2e:load-failed:encrypted:"+a.name, fmt.Sprintf("Properties on the %s-encrypted document: %v", a.name, err), rep)
+				continue
+			}
+			for i, t := range batch {
+				if g := ps[fmt.Sprintf("K%03d", i)]; g != t {
+					if r.Want("e2e:text-changed:encrypted:" + a.name) {
+						r.Violation("e2e:text-changed:encrypted:"+a.name, fmt.Sprintf("property value %+q (%d UTF-16 code units) reads back as %+q from the %s-encrypted document", t, len(utf16.Encode([]rune(t))), g, a.name), rep)
+					}
+					break
+				}
+			}
+		}
+	}
 }
 
 // c13Block names the class of a scalar for grouping findings.
